@@ -327,11 +327,30 @@ class EBNF_to_BNF(Transformer_InPlace):
             ])
             return self._add_rule(key, new_name, tree)
 
+    def _count_alternatives(self, x):
+        "How many expansions does x become once its alternatives are multiplied out?"
+        if not isinstance(x, Tree):
+            return 1
+        counts = [self._count_alternatives(c) for c in x.children]
+        if x.data == 'expansions':
+            return sum(counts)
+        n = 1
+        for c in counts:
+            n *= c
+        return n
+
     def _generate_repeats(self, rule: Tree, mn: int, mx: int):
         """Generates a rule tree that repeats ``rule`` exactly between ``mn`` to ``mx`` times.
         """
         # For a small number of repeats, we can take the naive approach
         if mx < REPEAT_BREAK_THRESHOLD:
+            if self._count_alternatives(rule) ** mx > REPEAT_BREAK_THRESHOLD ** 2:
+                # The copies of an item with alternatives - (a|b)~20, (a b?)~20 - would be multiplied out
+                # into k**n expansions. Give the item a rule of its own first.
+                try:
+                    rule = self.rules_cache[self._cache_key(rule)]
+                except KeyError:
+                    rule = self._add_rule(rule, self._name_rule('group'), rule)
             return ST('expansions', [ST('expansion', [rule] * n) for n in range(mn, mx + 1)])
 
         # For large repeat values, we break the repetition into sub-rules.
